@@ -226,6 +226,10 @@ GEN = {
                "Gen_deduceRoute_related", "Gen_deduceRoute_self"],
     "GenC07b": ["Gen_Type_Fields_eq", "Gen_NewParams_eq", "Gen_NewParams_differs_on_empty_rule", "Gen_NewURL_eq",
                 "Gen_NewSimpleURL_eq", "Gen_NewSimpleURL_nil", "Gen_NewSimpleURL_rules_nonempty"],
+    "GenC15b": ["Gen_Schema_Check_eq", "Gen_Schema_Check_all_err", "Gen_Schema_Check_length", "Gen_Schema_Check_nil_iff",
+                "Gen_Schema_buildRels_mem", "Gen_Schema_buildRels_nodup", "Gen_Schema_buildRels_perm", "Gen_Schema_Rels_order",
+                "Gen_Schema_Rels_eq", "Gen_Schema_Rels_any_order", "Gen_Type_Copy_eq", "Gen_Type_Copy_TypeV",
+                "Gen_Type_Copy_needs_unique_keys"],
 }
 GEN_WHAT = {
     "GenC16": "Rel.Invert, Rel.Normalize, Rel.String and relLess",
@@ -237,8 +241,9 @@ GEN_WHAT = {
     "GenC03": "buildSelfLink and buildRelationshipLinks",
     "GenC07": "deduceRoute",
     "GenC07b": "Type.Fields, NewParams (params.go), NewURL (url.go) and NewSimpleURL (simple_url.go; (*url.URL).Query and the two json.Unmarshal calls of the filter parameter are parameters, the keys of the values map are distinct), over structures generated from the Go struct declarations; NewParams and NewURL under the hypothesis that no sorting rule is the empty string - the code reads urule[0] and panics there, the model does not: a checked counterexample - which NewSimpleURL's results satisfy",
+    "GenC15b": "Schema.Check ([]error as a list with one Res.err per appended error: the result is, relationship by relationship in iteration order, checkRel errors, and its length is checkCount), Schema.buildRels (map[Rel]struct{} as a list of entries with distinct keys: the same set as relSet), Schema.Rels (sort.Slice read as the merge sort by the translated comparison, exact because relLess is a strict total order on the distinct keys: equal to relsSorted whatever the iteration order of the map) and Type.Copy (NewFunc not modelled; on maps with unique keys the copy has the source's name and entries)",
 }
-GEN_USERS = {"C16": ["GenC16"], "C10": ["GenC10"], "C09": ["GenC10"], "C14": ["GenC14", "GenC15", "GenC14b"], "C15": ["GenC15"], "C12": ["GenC15"], "C17": ["GenC14"], "C19": ["GenC14"],
+GEN_USERS = {"C16": ["GenC16", "GenC15b"], "C10": ["GenC10"], "C09": ["GenC10"], "C14": ["GenC14", "GenC15", "GenC14b"], "C15": ["GenC15", "GenC15b"], "C12": ["GenC15", "GenC15b"], "C17": ["GenC14"], "C19": ["GenC14"],
              "C03": ["GenC03"], "C04": ["GenC03"], "C07": ["GenC07", "GenC08", "GenC07b"], "C08": ["GenC08", "GenC07b"]}
 for _pid, _mods in GEN_USERS.items():
     _c = PROPS[_pid]
